@@ -183,6 +183,88 @@ func c01Decoders(w *World, r *Report) {
 	if nDec < 10 {
 		r.Undecided("R11", "decoders#instances", "-", fmt.Sprintf("only %d hand-written decoders found, 12 confirmed by hand", nDec))
 	}
+	// every attribute of the start element is looked at: a loop over start.Attr is left by exhaustion, or with an error
+	nAttrLoops := 0
+	for _, fn := range w.LibFuncs() {
+		if fn.Pkg == nil || fn.Pkg.Pkg.Name() != "stanza" || len(fn.Blocks) == 0 {
+			continue
+		}
+		seenLoop := map[*ssa.BasicBlock]bool{}
+		for _, b := range fn.Blocks {
+			for _, in := range b.Instrs {
+				ia, ok := in.(*ssa.IndexAddr)
+				if !ok || !blockReaches(b, b) {
+					continue
+				}
+				sl, ok := ia.X.Type().Underlying().(*types.Slice)
+				if !ok || !strings.HasSuffix(sl.Elem().String(), "encoding/xml.Attr") {
+					continue
+				}
+				// the loop: blocks on a cycle with b; its head: the one entered from outside
+				inLoop := map[*ssa.BasicBlock]bool{}
+				for _, x := range fn.Blocks {
+					if x == b || (blockReaches(b, x) && blockReaches(x, b)) {
+						inLoop[x] = true
+					}
+				}
+				var head *ssa.BasicBlock
+				for x := range inLoop {
+					for _, p := range x.Preds {
+						if !inLoop[p] && (head == nil || x.Index < head.Index) {
+							head = x
+						}
+					}
+				}
+				if head == nil || seenLoop[head] {
+					continue
+				}
+				seenLoop[head] = true
+				nAttrLoops++
+				bad := ""
+				// (a search for one attribute may stop at the first hit: nothing else is being collected)
+				targets := map[string]bool{}
+				for x := range inLoop {
+					for _, in2 := range x.Instrs {
+						if st, isSt := in2.(*ssa.Store); isSt {
+							if fa, isFA := st.Addr.(*ssa.FieldAddr); isFA {
+								if f := fieldOfAddr(fa); f != nil {
+									targets["field:"+f.Name()] = true
+								}
+							} else {
+								targets[fmt.Sprintf("%p", st.Addr)] = true
+							}
+						}
+					}
+				}
+				for x := range inLoop {
+					if x == head || len(targets) <= 1 {
+						continue
+					}
+					for _, sx := range x.Succs {
+						if inLoop[sx] {
+							continue
+						}
+						// leaving from inside the body: only with an error
+						okExit := false
+						if rt, isRet := sx.Instrs[len(sx.Instrs)-1].(*ssa.Return); isRet && len(sx.Instrs) <= 3 {
+							for _, rv := range rt.Results {
+								if types.Identical(rv.Type(), types.Universe.Lookup("error").Type()) && !isNilConst(rv) {
+									okExit = true
+								}
+							}
+						}
+						if !okExit {
+							bad = "the loop over the element's attributes can be left before the last attribute (to " + w.ipos(sx.Instrs[0]) + ") without an error: an attribute that comes later is never read, whichever it is"
+						}
+					}
+				}
+				r.Check(bad == "", "R11", w.funcKey(fn)+"#attr-loop@"+fmt.Sprint(head.Index), w.ipos(in), bad, "left only when the attributes are exhausted (or with an error)")
+			}
+		}
+	}
+	if nAttrLoops < 4 {
+		r.Undecided("R11", "decoders#attr-loops", "-", fmt.Sprintf("only %d loops over start.Attr found, 4 confirmed by hand", nAttrLoops))
+	}
 }
 
 // blockReaches: b is reachable from a through at least one edge.
